@@ -46,6 +46,20 @@ def raw_blocks(rng, tier):
     for _ in range(2000 if thorough else 150):
         d = bytes(rng.randrange(256) for _ in range(rng.choice([0, 1, 2, 3, 8, 9, 10, 40, 200])))
         yield (rng.choice(["traj", "yaw", "rth", "light"]), "random", d)
+    for label, prog in lightgen.special_programs(rng, thorough):
+        yield ("light", label, bytes(prog))
+    # blocks longer than 64 KiB of every kind (offsets that do not fit 16 bits)
+    for _ in range(3 if thorough else 1):
+        tr = trajgen.rand_traj(rng, nseg=3, maxdeg=3)
+        st = tr["start"]
+        tr["segs"] = trajgen.long_prefix(rng, st[0], st[1], st[2], deg=1, flat_z=False) + tr["segs"]
+        tb = bytes(b & 255 for b in trajgen.encode(tr))
+        yield ("traj", "long-block", tb)
+        yield ("traj", "long-block-cut", tb[:rng.randint(min(65536, len(tb) - 2), len(tb) - 1)])
+        y = yawgen.rand_yaw(rng, n=16500 + rng.randint(0, 600))
+        yb = bytes(b & 255 for b in yawgen.encode(y))
+        yield ("yaw", "long-block", yb)
+        yield ("yaw", "long-block-cut", yb[:rng.randint(min(65536, len(yb) - 2), len(yb) - 1)])
     # long varints / deep nesting / huge durations in light programs
     yield ("light", "special", bytes([0x02] + [0x80] * 12 + [0x01, 0x04, 1, 2, 3, 5, 0]))
     yield ("light", "special", bytes([0x0c, 2] * 6 + [0x02, 1] + [0x0d] * 6 + [0x04, 9, 9, 9, 50, 0]))
